@@ -46,6 +46,43 @@ def main():
             fails.append({'check': 'named per-observation output maps entries by name', 'map': mp})
         if convert_to_dict([5, 6, 7], mp) != {nm: [5, 6, 7][i] for nm, i in mp.items()}:
             fails.append({'check': 'convert_to_dict', 'map': mp})
+    # --- named outputs of a formula that SHARES its numbering with other formulas (auxiliary formula of a BIOGEME object):
+    #     entry `name` must be the derivative with respect to `name`, whatever other parameters the numbering contains
+    try:
+        import warnings
+        warnings.simplefilter('ignore')
+        import pandas as pd
+        import biogeme.database as db
+        from biogeme.biogeme import BIOGEME
+        from biogeme.parameters import Parameters
+        from biogeme.expressions import Beta, Variable, exp
+        X = np.array([1.0, 2.0, 0.5, 1.5]); Y = np.array([0.4, 1.2, 2.0, 0.3])
+        d = db.Database('c02named', pd.DataFrame({'x': X, 'y': Y}))
+        a, b, c = (Beta(nm, v, None, None, 0) for nm, v in (('a_time', 0.35), ('b_cost', -0.45), ('c_extra', 0.8)))
+        x, y = Variable('x'), Variable('y')
+        aux = exp(b * x) + c * c * y
+        bg = BIOGEME(d, {'log_like': -(a * x - y) * (a * x - y) - b * b, 'aux': aux}, parameters=Parameters())
+        th = {'a_time': 0.35, 'b_cost': -0.45, 'c_extra': 0.8}
+        want_g = {'a_time': 0.0, 'b_cost': float(np.sum(X * np.exp(th['b_cost'] * X))), 'c_extra': float(np.sum(2 * th['c_extra'] * Y))}
+        want_h = {'b_cost': {'b_cost': float(np.sum(X * X * np.exp(th['b_cost'] * X)))}, 'c_extra': {'c_extra': float(np.sum(2 * Y))}}
+        for agg in (True, False):
+            n += 1
+            r = aux.get_value_and_derivatives(betas=th, database=d, gradient=True, hessian=True, bhhh=False, aggregation=agg,
+                                              prepare_ids=False, named_results=True)
+            if agg:
+                g = {k: float(v) for k, v in r.gradient.items()}
+                hd = {k: float(r.hessian[k][k]) for k in ('b_cost', 'c_extra')}
+            else:
+                g = {k: float(sum(row[k] for row in r.gradients)) for k in r.gradients[0]}
+                hd = {k: float(sum(row[k][k] for row in r.hessians)) for k in ('b_cost', 'c_extra')}
+            ok = set(g) == set(want_g) and all(abs(g[k] - want_g[k]) <= 1e-9 * max(1.0, abs(want_g[k])) for k in want_g) \
+                and all(abs(hd[k] - want_h[k][k]) <= 1e-9 * max(1.0, abs(want_h[k][k])) for k in hd)
+            if not ok:
+                fails.append({'check': 'named outputs of a formula sharing its numbering: entry `name` is the derivative w.r.t. `name`',
+                              'aggregation': agg, 'expected_gradient': want_g, 'got_gradient': g, 'got_hessian_diagonal': hd})
+    except Exception as e:
+        fails.append({'check': 'named outputs of a formula sharing its numbering: entry `name` is the derivative w.r.t. `name`',
+                      'got': f'{type(e).__name__}: {str(e)[:300]}'})
     print(json.dumps({'cases': n, 'failures': fails}))
     return 1 if fails else 0
 
